@@ -149,6 +149,8 @@ ft!(c03_q_polygon_empty_ring, Polygon, 320, [rec(&[0, 3], true), rec(&[], true)]
 ft!(c03_t_polygonz_empty_last_ring, PolygonZ, 320, [rec(&[3, 0], false)], 0);
 // H: tier=quick; unwind=34; sym=coords, boxes; file=Multipatch [fan 3, inner ring 3] without M block; asserts=patch kinds, XYZ bits, measures NO_DATA
 ft!(c03_q_multipatch_without_m, Multipatch, 400, [rec_k(&[3, 3], &[1, 3], false)], 0);
+// H: tier=quick; unwind=34; sym=coords, boxes; file=Multipatch [first ring 3, ring 3] (patch kinds 4 and 5) without M block; asserts=patch kinds kept apart (FirstRing vs Ring), XYZ bits, measures NO_DATA
+ft!(c03_q_multipatch_firstring_ring, Multipatch, 400, [rec_k(&[3, 3], &[4, 5], false)], 0);
 // H: tier=thorough; unwind=34; sym=coords, boxes; file=Multipatch [strip 3] with M block then [outer ring 4] without; asserts=as above
 ft!(c03_t_multipatch_optional_m, Multipatch, 640, [rec_k(&[3], &[0], true), rec_k(&[4], &[2], false)], 0);
 // H: tier=thorough; unwind=34; sym=coords, boxes; file=PolygonZ [4] without M then PolygonM-less...: PolygonZ [3] with M; asserts=as above
